@@ -141,6 +141,48 @@ def body(chk, db, cfgname):
         else:
             r1.bad(site, f.loc(seq[0]), detail, cfgname)
 
+    # ---- quantum numbers of a state = diagonal elements of the accepted operations ON THAT STATE
+    with r1.guard(SC + "compute:quantum-numbers", f.loc(L), cfgname):
+        sets = [j for j, n in f.walk(ln["body"]) if n["k"] == "call" and n["ck"] == "method" and strip_targs(n.get("cname") or "") == "Pomerol::Symmetrizer::QuantumNumbers::set"]
+        if not sets:
+            raise AnalysisBroken("no QuantumNumbers::set in the classification loop")
+        # the state being classified: the Fock state pushed into StatesContainer
+        scp = [pushes[j] for j in pushes if pushes[j][0] == "sc"]
+        state_keys = {p_[2] for p_ in scp}
+        if len(state_keys) != 1:
+            raise AnalysisBroken("cannot identify the state variable being classified")
+        st = list(state_keys)[0]
+        site = SC + "compute:quantum-numbers"
+        from pv.symenv import env_at, value_key
+        envs = env_at(f, ctx)
+        applied = [j for j, n in f.walk(ln["body"]) if n["k"] == "call" and strip_targs(n.get("cname") or "") in ("Pomerol::Operator::getMatrixElement", "Pomerol::Operator::actRight")
+                   and any(ctx.key(a, inline=False)[:2] == st[:2] for a in n["args"])]
+        for S_ in sets:
+            n = f.nodes[S_]
+            nk = ctx.key(n["args"][0], inline=False)
+            vnode = n["args"][1]
+            vn = f.nodes[vnode]
+            if vn["k"] == "ref" and vn["dk"] == "local" and ctx.single_assignment(vn["d"]):
+                vnode = ctx.decls[vn["d"]]["init"]
+                vn = f.nodes[vnode]
+            okv = False
+            if vn["k"] == "call" and strip_targs(vn.get("cname") or "") == "Pomerol::Operator::getMatrixElement" and vn["args"]:
+                argk = [ctx.key(a, inline=False) for a in vn["args"]]
+                objk = ctx.key(vn["obj"], inline=False) if vn.get("obj") is not None else ("none",)
+                okv = all(a[:2] == st[:2] for a in argk) and key_contains(objk, lambda y: y[:2] == nk[:2])
+            Ls = enclosing_loops(f, S_)
+            shp_n = loop_shape(f, ctx, Ls[0]) if Ls else None
+            fulln = shp_n is not None and shp_n["kind"] == "index" and shp_n["start"] == ("lit", 0) and not shp_n["exits"] and shp_n["var"][:2] == nk[:2]
+            if okv and fulln:
+                r1.ok(site, f.loc(S_), "for every accepted operation n: QNumbers.set(n, <state| op_n |state>) on the state being classified", cfgname)
+            elif okv:
+                r1.bad(site, f.loc(S_), "not every accepted operation contributes its quantum number (loop over the operations is not full)", cfgname)
+            elif not applied:
+                r1.bad(site, f.loc(S_), "the quantum number of a state is not obtained by applying the accepted operation to THAT state (no getMatrixElement/actRight on '%s' in the loop): it is assembled from "
+                       "values on other states, which is only valid for integrals of motion linear in the occupation numbers, while the analysis accepts any operator commuting with all n_i" % st[2], cfgname)
+            else:
+                raise AnalysisBroken("the value handed to QuantumNumbers::set is not recognisably <state|op_n|state>")
+
     # ================================================================== R2
     r2 = chk.rule("C07-R2", "a state is recovered from its (block, position) address", "F5 index spaces", 2)
     g = db.fn(SC + "getInnerState", ptypes=[r"dynamic_bitset"])
@@ -190,59 +232,20 @@ def body(chk, db, cfgname):
     g = db.fn("Pomerol::Symmetrizer::checkSymmetry", nparams=1)
     gctx = thr.ctx(g)
     gat = thr.facts(g)
-    pb = [j for j, n in g.walk(g.body) if n["k"] == "call" and n["ck"] == "method" and strip_targs(n.get("cname") or "") == "std::vector::push_back"
-          and gctx.key(n["obj"]) == fld("Pomerol::Symmetrizer::Operations")]
-    if len(pb) != 1:
-        raise AnalysisBroken("checkSymmetry: expected one Operations.push_back")
-    P = pb[0]
-    opk = gctx.key(g.nodes[P]["args"][0], inline=False)
-    fa = gat.get(g.cfg.pos1(P), frozenset())
-    # (a) commutes with H
-    site = "Pomerol::Symmetrizer::checkSymmetry:commutes-with-H"
-    hk = [x for x in fa if x[0] == "true" and x[1][0] == "mcall" and x[1][1] == "Pomerol::Operator::commutes" and x[1][2] == fld("Pomerol::Symmetrizer::Storage")]
-    if hk:
-        r3.ok(site, g.loc(P), "acceptance is dominated by Storage.commutes(op) == true", cfgname)
-    else:
-        r3.bad(site, g.loc(P), "an operator is accepted as an integral of motion without the test that it commutes with the Hamiltonian", cfgname)
-    # (b) commutes with every n_i: a full loop over [0, IndexSize) whose failing edge returns false, before the push
-    site = "Pomerol::Symmetrizer::checkSymmetry:commutes-with-all-n_i"
-    okb = False
-    why = "no loop over the single-particle indices testing n(i).commutes(op)"
-    for Lp in [j for j, n in g.walk(g.body) if n["k"] == "for"]:
-        shp = loop_shape(g, gctx, Lp)
-        if shp["kind"] != "index":
-            continue
-        tests = []
-        for j, n in g.walk(shp["body"]):
-            if n["k"] == "call" and strip_targs(n.get("cname") or "") == "Pomerol::Operator::commutes":
-                ok_ = gctx.key(n["obj"]) if n.get("obj") is not None else None
-                if ok_ and ok_[0] == "call" and ok_[1] == "Pomerol::OperatorPresets::n" and ok_[2][:2] == shp["var"][:2]:
-                    tests.append(j)
-        if not tests:
-            continue
-        hdr, blks = g.cfg.loop_blocks(Lp)
-        full = shp["start"] == ("lit", 0) and shp["rel"] == "<" and shp["bound"] in (fld("Pomerol::Symmetrizer::IndexSize"),
-                                                                                      ("field", "Pomerol::IndexClassification::IndexSize", fld("Pomerol::Symmetrizer::IndexInfo")))
-        latchfacts = gat.get(g.cfg.pos1(g.nodes[Lp]["inc"]), frozenset())
-        passed = any(x[0] == "true" and x[1][0] == "mcall" and x[1][1] == "Pomerol::Operator::commutes" and x[1][2][0] == "call" for x in latchfacts)
-        exits_ok = all(kind == "return" for _, kind in shp["exits"])
-        rets_false = all(g.nodes[e].get("sub") is not None and gctx.key(g.nodes[e]["sub"]) == ("lit", 0) for e, kind in shp["exits"])
-        dom = g.cfg.dominates_block(hdr, g.cfg.pos1(P)[0]) and g.cfg.pos1(P)[0] not in blks
-        if full and passed and exits_ok and rets_false and dom and shp["exits"]:
-            okb = True
-        else:
-            why = "the loop testing n(i).commutes(op) %s" % ("does not cover [0, IndexSize)" if not full else "does not reject (return false) on a failing test before the operator is stored" if not (passed and rets_false and shp["exits"]) else "does not precede the acceptance")
-    if okb:
-        r3.ok(site, g.loc(P), "acceptance follows a loop over all i < IndexSize in which a failing n(i).commutes(op) returns false", cfgname)
-    else:
-        r3.bad(site, g.loc(P), why, cfgname)
-    # (c) NSymmetries incremented with it
-    site = "Pomerol::Symmetrizer::checkSymmetry:count"
-    incs = [j for j, n in g.walk(g.body) if n["k"] == "un" and n["op"] == "++" and gctx.key(n["sub"]) == fld("Pomerol::Symmetrizer::NSymmetries")]
-    if len(incs) == 1 and (g.cfg.dominates(g.cfg.pos1(P), g.cfg.pos1(incs[0])) and g.cfg.pos1(incs[0])[0] == g.cfg.pos1(P)[0]):
-        r3.ok(site, g.loc(incs[0]), "NSymmetries++ on the same path as Operations.push_back", cfgname)
-    else:
-        r3.bad(site, g.loc(P), "the number of quantum numbers (NSymmetries) is not incremented together with Operations.push_back", cfgname)
+    pbs = [j for j, n in g.walk(g.body) if n["k"] == "call" and n["ck"] == "method" and strip_targs(n.get("cname") or "") == "std::vector::push_back"
+           and gctx.key(n["obj"]) == fld("Pomerol::Symmetrizer::Operations")]
+    if not pbs:
+        raise AnalysisBroken("checkSymmetry: no Operations.push_back (acceptance site) found")
+    for pi, P in enumerate(pbs):
+        tag = "" if len(pbs) == 1 else "#%d" % (pi + 1)
+        with r3.guard("Pomerol::Symmetrizer::checkSymmetry:acceptance%s" % tag, g.loc(P), cfgname):
+            check_acceptance(r3, g, gctx, gat, P, tag, cfgname)
+    # value-level lint inside the acceptance logic: truncating folds
+    from pv import lints
+    for fn_ in [g] + [db.callee_fn(g.nodes[j]) for j in g.calls() if db.callee_fn(g.nodes[j]) is not None and db.callee_fn(g.nodes[j]).file == g.file]:
+        for j, et, it_ in lints.narrowing_folds(fn_):
+            r3.bad("%s:narrowing-fold" % fn_.qn, fn_.loc(j), "%s sums %s elements into an accumulator of type '%s' (the type of the initial value): every partial sum is truncated towards zero, "
+                   "so e.g. charges of modulus < 1 (S_z = +-1/2) always add up to 0 and the commutation test passes vacuously" % (fn_.s(j)[:60], "floating-point" if "complex" not in et else "complex", it_), cfgname)
 
     # ================================================================== R4
     r4 = chk.rule("C07-R4", "no exception escapes the symmetry analysis: every throwing callee is excluded by a dominating guard", "F1 dominance + exception summaries", 3)
@@ -295,6 +298,72 @@ def body(chk, db, cfgname):
 
     chk.undecided.append("that accepted integrals of motion make H block diagonal and every c, c^+, c^+c single-target at the value level; mapsTo takes the image block from the first non-annihilated state (sound only for linear integrals of motion) and QuantumNumbers are compared through a floating-point hash: noted, not armed")
     chk.trusted.append("virtual calls (Operator::getMatrixElement) are summarised through their static callee")
+
+
+
+def check_acceptance(r3, g, gctx, gat, P, tag, cfgname):
+    opk = gctx.key(g.nodes[P]["args"][0], inline=False)
+    fa = gat.get(g.cfg.pos1(P), frozenset())
+    has_commute_test = any(x[0] == "true" and x[1][0] == "mcall" and x[1][1] == "Pomerol::Operator::commutes" for x in fa)
+    if not has_commute_test:
+        # is the Hamiltonian consulted at all on the way to the acceptance?
+        storage = fld("Pomerol::Symmetrizer::Storage")
+        consulted = False
+        for j, n in g.walk(g.body):
+            if n["k"] == "member" and n.get("q") == "Pomerol::Symmetrizer::Storage" and g.cfg.pos1(j) and g.cfg.dominates_block(g.cfg.pos1(j)[0], g.cfg.pos1(P)[0]):
+                consulted = True
+        if not consulted:
+            r3.bad("Pomerol::Symmetrizer::checkSymmetry:commutes-with-H" + tag, g.loc(P), "an operator is accepted as an integral of motion without the Hamiltonian being consulted at all on that path", cfgname)
+            return
+        raise AnalysisBroken("an operator is accepted on a path that does not go through Operator::commutes at all (a different commutation test): the acceptance rule cannot be decided for this idiom")
+    # (a) commutes with H
+    site = "Pomerol::Symmetrizer::checkSymmetry:commutes-with-H" + tag
+    hk = [x for x in fa if x[0] == "true" and x[1][0] == "mcall" and x[1][1] == "Pomerol::Operator::commutes" and x[1][2] == fld("Pomerol::Symmetrizer::Storage")]
+    if hk:
+        r3.ok(site, g.loc(P), "acceptance is dominated by Storage.commutes(op) == true", cfgname)
+    else:
+        r3.bad(site, g.loc(P), "an operator is accepted as an integral of motion without the test that it commutes with the Hamiltonian", cfgname)
+    # (b) commutes with every n_i: a full loop over [0, IndexSize) whose failing edge returns false, before the push
+    site = "Pomerol::Symmetrizer::checkSymmetry:commutes-with-all-n_i" + tag
+    okb = False
+    why = "no loop over the single-particle indices testing n(i).commutes(op)"
+    for Lp in [j for j, n in g.walk(g.body) if n["k"] == "for"]:
+        shp = loop_shape(g, gctx, Lp)
+        if shp["kind"] != "index":
+            continue
+        tests = []
+        for j, n in g.walk(shp["body"]):
+            if n["k"] == "call" and strip_targs(n.get("cname") or "") == "Pomerol::Operator::commutes":
+                ok_ = gctx.key(n["obj"]) if n.get("obj") is not None else None
+                if ok_ and ok_[0] == "call" and ok_[1] == "Pomerol::OperatorPresets::n" and ok_[2][:2] == shp["var"][:2]:
+                    tests.append(j)
+        if not tests:
+            continue
+        hdr, blks = g.cfg.loop_blocks(Lp)
+        full = shp["start"] == ("lit", 0) and shp["rel"] == "<" and shp["bound"] in (fld("Pomerol::Symmetrizer::IndexSize"),
+                                                                                      ("field", "Pomerol::IndexClassification::IndexSize", fld("Pomerol::Symmetrizer::IndexInfo")))
+        latchfacts = gat.get(g.cfg.pos1(g.nodes[Lp]["inc"]), frozenset())
+        passed = any(x[0] == "true" and x[1][0] == "mcall" and x[1][1] == "Pomerol::Operator::commutes" and x[1][2][0] == "call" for x in latchfacts)
+        exits_ok = all(kind == "return" for _, kind in shp["exits"])
+        rets_false = all(g.nodes[e].get("sub") is not None and gctx.key(g.nodes[e]["sub"]) == ("lit", 0) for e, kind in shp["exits"])
+        dom = g.cfg.dominates_block(hdr, g.cfg.pos1(P)[0]) and g.cfg.pos1(P)[0] not in blks
+        if full and passed and exits_ok and rets_false and dom and shp["exits"]:
+            okb = True
+        else:
+            why = "the loop testing n(i).commutes(op) %s" % ("does not cover [0, IndexSize)" if not full else "does not reject (return false) on a failing test before the operator is stored" if not (passed and rets_false and shp["exits"]) else "does not precede the acceptance")
+    if okb:
+        r3.ok(site, g.loc(P), "acceptance follows a loop over all i < IndexSize in which a failing n(i).commutes(op) returns false", cfgname)
+    else:
+        r3.bad(site, g.loc(P), why, cfgname)
+    # (c) NSymmetries incremented with it
+    site = "Pomerol::Symmetrizer::checkSymmetry:count" + tag
+    incs = [j for j, n in g.walk(g.body) if n["k"] == "un" and n["op"] == "++" and gctx.key(n["sub"]) == fld("Pomerol::Symmetrizer::NSymmetries")
+            and g.cfg.pos1(j) and g.cfg.pos1(j)[0] == g.cfg.pos1(P)[0]]
+    if len(incs) == 1 and g.cfg.dominates(g.cfg.pos1(P), g.cfg.pos1(incs[0])):
+        r3.ok(site, g.loc(incs[0]), "NSymmetries++ on the same path as Operations.push_back", cfgname)
+    else:
+        r3.bad(site, g.loc(P), "the number of quantum numbers (NSymmetries) is not incremented together with Operations.push_back", cfgname)
+
 
 
 def first_elem(f, node):
